@@ -3,4 +3,5 @@
 import UtapModel.Props.C02
 import UtapModel.Props.C03
 import UtapModel.Props.C18
+import UtapModel.Props.C18Float
 import UtapModel.Gen.PrinterWitness
